@@ -218,8 +218,9 @@ pub fn gate_remove() {
 pub fn register_participant(id: usize) {
     shared().part_tid[id].store(gettid(), SeqCst);
 }
+/// The participant has finished: its remaining schedule slots (if any) are skipped.
 pub fn unregister_participant(id: usize) {
-    shared().part_tid[id].store(0, SeqCst);
+    shared().part_tid[id].store(-1, SeqCst);
 }
 pub fn gate_position() -> u32 {
     shared().sched_pos.load(SeqCst)
@@ -247,8 +248,14 @@ fn gate_enter(tid: c_int) -> Option<u32> {
             // schedule exhausted: run free
             return None;
         }
-        if s.sched[pos as usize].load(SeqCst) == me {
+        let head = s.sched[pos as usize].load(SeqCst);
+        if head == me {
             return Some(me);
+        }
+        if (head as usize) >= MAX_PART || s.part_tid[head as usize].load(SeqCst) == -1 {
+            // the participant whose turn it is has finished: skip its slot
+            let _ = s.sched_pos.compare_exchange(pos, pos + 1, SeqCst, SeqCst);
+            continue;
         }
         spins += 1;
         if spins < 200 {
